@@ -57,6 +57,8 @@ MAP = [  # subject substring -> properties whose quick check must catch the reve
     ('QRDecomposition built the orthogonal factor only inside', ['C12']),
     ('SVD paired the eigenvectors', ['C12']),
     ('MatrixPseudoinversion formed U S^-1', ['C12']),
+    ('setStr/getStr had no range check', ['C14']),
+    ('GenIdentityMatrix only wrote the diagonal', ['C14']),
 ]
 
 
